@@ -3142,7 +3142,9 @@ static void build_stmt(WorkList *list, ScopeStack *scopes, ASTNode *stmt, int in
             
         case AST_FOR: {
             /* for i in (range start end) { body } 
-             * Transpiles to: for (int64_t i = start; i < end; i++) { body } 
+             * Transpiles to: for (int64_t i = start, nl_for_end_i = end; i < nl_for_end_i; i++) { body }
+             * The bounds are evaluated once, before the first iteration (start, then end): writing `end` into the
+             * loop condition would re-evaluate it -- side effects included -- before every iteration.
              */
             const char *var = stmt->as.for_stmt.var_name;
             ASTNode *range = stmt->as.for_stmt.range_expr;
@@ -3157,10 +3159,14 @@ static void build_stmt(WorkList *list, ScopeStack *scopes, ASTNode *stmt, int in
                 emit_literal(list, var);
                 emit_literal(list, " = ");
                 build_expr(list, range->as.call.args[0], env);
+                emit_literal(list, ", nl_for_end_");
+                emit_literal(list, var);
+                emit_literal(list, " = ");
+                build_expr(list, range->as.call.args[1], env);
                 emit_literal(list, "; ");
                 emit_literal(list, var);
-                emit_literal(list, " < ");
-                build_expr(list, range->as.call.args[1], env);
+                emit_literal(list, " < nl_for_end_");
+                emit_literal(list, var);
                 emit_literal(list, "; ");
                 emit_literal(list, var);
                 emit_literal(list, "++) ");
